@@ -45,6 +45,13 @@ def run(ctx):
             {"cfg": "Traceparent_quick2.cfg", "workers": 4, "actions": ACTIONS + ["Header"]},
             {"cfg": "Traceparent_quick3.cfg", "workers": 4, "actions": ACTIONS},
             {"cfg": "Traceparent_quick4.cfg", "workers": 4, "actions": ACTIONS + ["Header"]},
+            # no sampler (emit_traceparent::setup(), TraceparentFilter::new()); frames made by
+            # SpanCtxt::current().push(), Tracestate::push, Frame::root (open_root), across threads
+            {"cfg": "Traceparent_quick5.cfg", "workers": 4,
+             "actions": [a for a in ACTIONS if a != "Current"] + ["Header", "Carry"]},
+            # the same frames with sampler + sampled-trace filter, entered and re-entered
+            {"cfg": "Traceparent_quick6.cfg", "workers": 4,
+             "actions": [a for a in ACTIONS if a != "Current"] + ["Header", "Carry"]},
         ]
     else:
         full = ACTIONS + TASKS + LAZY + ["Header"]
@@ -58,6 +65,9 @@ def run(ctx):
             {"cfg": "Traceparent_thorough_r2.cfg", "workers": 6, "actions": ACTIONS + TASKS + LAZY},
             {"cfg": "Traceparent_thorough_r3.cfg", "workers": 6, "actions": ACTIONS + ["Header"]},
             {"cfg": "Traceparent_thorough_r4.cfg", "workers": 6, "actions": ACTIONS + ["Header"]},
+            {"cfg": "Traceparent_thorough_r5.cfg", "workers": 6,
+             "actions": [a for a in ACTIONS if a != "Current"] + ["Header", "Carry"]},
+            {"cfg": "Traceparent_thorough_r6.cfg", "workers": 6, "actions": ACTIONS + TASKS + ["Header", "Carry"]},
             {"cfg": "Traceparent_thorough_sim.cfg", "workers": 4, "simulate": (20000, 18)},
         ]
         if ctx.replay_case() is None:
@@ -72,11 +82,13 @@ def run(ctx):
     span_common.run_configs(ctx, "MCTraceparent", "c18_tp", configs, ACTIONS, "C18",
                             harness_args=mode_arg)
     ctx.assumptions += [
-        "context forms (value, &C, Option<C>, Box<C>, Arc<C>, Box<dyn ErasedCtxt + Send + Sync>, the ambient runtime of setup_with_sampler(..).init_slot): every program runs through one form, the program number rotates through them; not every program through every form",
+        "context forms (value, &C, Option<C>, Box<C>, Arc<C>, Box<dyn ErasedCtxt + Send + Sync>, the ambient runtime of setup_with_sampler(..).init_slot, TraceparentCtxt over a third-party stacking context on the trait defaults): every program runs through one form, the program number rotates through them; not every program through every form",
         "no call-site `when`, no other runtime filter than TraceparentFilter [and in_sampled_trace_filter(true)] (the statement's setting)",
         "the random source yields no zero and no repeat; ids are compared up to a bijection",
         "what the statement does not say is not compared: Traceparent::current() outside any trace and its ids inside an unsampled trace, events outside any trace, ids of events in unsampled traces",
         "an invalid header (no ids, span id only, trace id only; sampled or unsampled flag) is ignored: the next span is a root and the sampler decides; which trace id that root gets is not said (the code keeps a sampled trace-id-only header's), so its name is bound softly; with the sampled-trace filter installed only invalid headers with the sampled flag are generated (in_sampled_trace_filter reads the flag of an invalid active traceparent too and would drop a root the sampler accepted - reported, not asserted)",
+        "entry points without a sampler (emit_traceparent::setup(), TraceparentFilter::new()): every new trace is sampled, nothing is consulted (spec constant Sampler = FALSE, forms setup / nosampler)",
+        "other frames (spec constant FrameKinds): SpanCtxt::current(ctxt).push(ctxt) and Tracestate::push carry the trace context they were made in, like Frame::current; Frame::root(ctxt, user props) carries none (a root frame shows only its own properties) and, like every frame that carries no trace, is entered outside any trace only; the VALUE of Tracestate::current() is read at every step but not compared (the statement does not mention it)",
         "hand-off frames are Frame::current(rt.ctxt()) (the book's way), span frames and pushed headers; the specification models the repaired open_push/open_disabled (fix F23: capture the active traceparent)",
         "span guards are moved into their frame; a panic is caught below everything the thread has entered (one catch level per thread), the level / error of the record emitted while unwinding is C05's",
         "bounds: see coverage.tlc_runs[*].constants",
